@@ -527,6 +527,9 @@ func (s *c15srv) panicList() []string {
 // with an HTTP 400 response instead of resetting the stream.
 var c15Malformed = map[string]func(id string) []string{
 	"upper":      func(id string) []string { return []string{":method", "GET", ":scheme", "https", ":authority", "h", ":path", "/", "X-Upper", "v", "x-id", id} },
+	"upperA":     func(id string) []string { return []string{":method", "GET", ":scheme", "https", ":authority", "h", ":path", "/", "a-A", "v", "x-id", id} },
+	"upperZ":     func(id string) []string { return []string{":method", "GET", ":scheme", "https", ":authority", "h", ":path", "/", "z-Z", "v", "x-id", id} },
+	"badname":    func(id string) []string { return []string{":method", "GET", ":scheme", "https", ":authority", "h", ":path", "/", "a b", "v", "x-id", id} },
 	"badvalue":   func(id string) []string { return []string{":method", "GET", ":scheme", "https", ":authority", "h", ":path", "/", "x-v", "a\nb", "x-id", id} },
 	"pseudolast": func(id string) []string { return []string{":method", "GET", ":scheme", "https", ":authority", "h", "x-id", id, ":path", "/"} },
 	"nomethod":   func(id string) []string { return []string{":scheme", "https", ":authority", "h", ":path", "/", "x-id", id} },
